@@ -2,7 +2,7 @@
 From Coq Require Import ZArith List String Bool Ascii Lia.
 From Verif Require Import Value PyEq BsonOrder Path Filter FilterSpec Update Project Coll
                           HistCheck HistProps ProjectSpec Cursor UpdateLaws.
-From Verif.Proofs Require Import C02Store C02Step C02History.
+From Verif.Proofs Require Import C02Store C02Step C02History C02Full.
 Import ListNotations.
 Open Scope Z_scope.
 Open Scope string_scope.
@@ -21,47 +21,43 @@ Definition ex_ops : list op :=
     OUpdate (VDoc []) (VDoc [("$max", VDoc [("n", VInt 3)])]) true false;
     OUpdate (VDoc [("_id", VInt 1)]) (VDoc [("$addToSet", VDoc [("l", VInt 9)])]) false false ].
 
-Ltac in_cases H :=
-  simpl in H;
-  repeat (destruct H as [H|H]; [inversion H; subst; clear H; try reflexivity|]);
-  try contradiction.
-
-Ltac inv_concrete :=
-  match goal with |- Inv ?c =>
-    let c' := eval vm_compute in c in change (Inv c') end;
-  constructor;
-  [ simpl; repeat split; intros k' d' Hin; in_cases Hin
-  | intros k d Hin; in_cases Hin
-  | intros i Hin; in_cases Hin
-  | intros k d Hin; in_cases Hin
-  | intros k d Hin; in_cases Hin ].
-
-Lemma ex_reach_inv : reach_inv false empty_coll ex_ops.
-Proof.
-  intros ops1 ops2 E. unfold ex_ops in E.
-  do 7 (destruct ops1 as [|? ops1]; [inv_concrete | injection E as <- E]).
-  destruct ops1; [inv_concrete | discriminate].
-Qed.
-
-Lemma ex_clock_ok : clock_ok false empty_coll ex_ops.
-Proof.
-  intros ops1 o ops2 E. unfold ex_ops in E.
-  do 7 (destruct ops1 as [|? ops1]; [injection E as <- E; vm_compute; reflexivity | injection E as <- E]).
-  destruct ops1; discriminate.
-Qed.
-
+(* the premises of the unconditional history theorem hold of the example, and so do the
+   facts about the reachable states the theorem derives from them *)
 Example history_sound_example :
-  reach_inv false empty_coll ex_ops /\ clock_ok false empty_coll ex_ops /\
   Forall op_wf ex_ops /\
   c02_reasons ex_ops (model_obs false empty_coll ex_ops) = 0 /\
   modelled false empty_coll ex_ops = true /\
+  reach_inv false empty_coll ex_ops /\ clock_ok false empty_coll ex_ops /\
   c02_ok ex_ops (model_obs false empty_coll ex_ops) = true.
 Proof.
   assert (Hwf : Forall op_wf ex_ops) by (repeat constructor).
   assert (Hr : c02_reasons ex_ops (model_obs false empty_coll ex_ops) = 0) by (vm_compute; reflexivity).
-  split; [exact ex_reach_inv|]. split; [exact ex_clock_ok|]. split; [exact Hwf|].
-  split; [exact Hr|]. split; [vm_compute; reflexivity|].
-  exact (history_sound_partial false ex_ops ex_reach_inv ex_clock_ok Hwf Hr).
+  split; [exact Hwf|]. split; [exact Hr|]. split; [vm_compute; reflexivity|].
+  split; [exact (reach_inv_all false ex_ops Hwf (reasons_no_ttl _ _ Hr))|].
+  split; [exact (clock_ok_all false ex_ops Hwf (reasons_no_ttl _ _ Hr))|].
+  exact (history_sound false ex_ops Hwf Hr).
+Qed.
+
+(* a history with an upsert, a find_one_and_update and a bulk write *)
+Definition ex_ops2 : list op :=
+  [ OInsertMany [VDoc [("_id", VInt 1); ("n", VInt 1)]; VDoc [("n", VInt 2)]] true;
+    OUpdate (VDoc [("k.x", VInt 3)]) (VDoc [("$set", VDoc [("v", VStr "u")])]) false true;
+    OFindAndModify (VDoc [("n", VInt 2)]) None [] (FamUpdate (VDoc [("$inc", VDoc [("n", VInt 5)])]) false true);
+    OBulk [BInsert (VDoc [("_id", VInt 7)]);
+           BUpdate (VDoc [("_id", VInt 7)]) (VDoc [("$set", VDoc [("w", VInt 1)])]) false false] true;
+    OCreateIndex [("n", VInt 1)] false false None None None;
+    OUpdate (VDoc []) (VDoc [("$unset", VDoc [("v", VInt 1)])]) true false ].
+
+Example history_sound_example2 :
+  Forall op_wf ex_ops2 /\
+  c02_reasons ex_ops2 (model_obs false empty_coll ex_ops2) = 0 /\
+  modelled false empty_coll ex_ops2 = true /\
+  c02_ok ex_ops2 (model_obs false empty_coll ex_ops2) = true.
+Proof.
+  assert (Hwf : Forall op_wf ex_ops2) by (repeat constructor).
+  assert (Hr : c02_reasons ex_ops2 (model_obs false empty_coll ex_ops2) = 0) by (vm_compute; reflexivity).
+  split; [exact Hwf|]. split; [exact Hr|]. split; [vm_compute; reflexivity|].
+  exact (history_sound false ex_ops2 Hwf Hr).
 Qed.
 
 (* the last state of the example (for the reader) *)
